@@ -161,7 +161,7 @@ structure Pod where
   evictPrio : Int             -- GetPodEvictionPriority (0 when absent / invalid)
   labelPrio : Option Int      -- label koordinator.sh/priority parsed by strconv.Atoi
   hasMetric : Bool            -- the pod usage metric query succeeded
-  used      : Int             -- int64(metric*1000): MemoryUsed (sic, priority path) / MilliCPUUsed
+  used      : Int             -- int64(metric*1000): MilliCPUUsed; memory paths read used/1000 = int64(metric) bytes
   request   : Int             -- GetRequestTypeAndValueFromPod: MemoryRequest / MilliCPURequest
   batchReq  : Int             -- sum of the positive batch-cpu container requests (BE CPU path)
 deriving Repr, DecidableEq
